@@ -23,6 +23,10 @@ func scenarios(thorough bool) []poolh.Params {
 		{Max: 2, Callers: 3, CallsEach: 1, Env: []string{"kill:1"}},
 		{Max: 1, Callers: 2, CallsEach: 1, Env: []string{"cancel:1", "kill:1"}},
 		{Max: 1, Callers: 4, CallsEach: 1, Staged: true, Env: []string{"finish", "cancel:2", "kill:1"}},
+		// how a use ends: the caller gives up while its request is in flight and the connection reports ctx.Err(); a request
+		// fails with a non-retryable error on a healthy connection (then two more callers follow on the same pool)
+		{Max: 1, Callers: 2, CallsEach: 1, Env: []string{"cancel:1"}, UseErr: "ctx"},
+		{Max: 1, Callers: 3, CallsEach: 1, UseErr: "app:1"},
 	}
 	if thorough {
 		s = append(s,
@@ -31,6 +35,9 @@ func scenarios(thorough bool) []poolh.Params {
 			poolh.Params{Max: 1, Callers: 3, CallsEach: 1, Staged: true, Env: []string{"finish", "cancel:2", "kill:1"}},
 			poolh.Params{Max: 2, Callers: 3, CallsEach: 2, Env: []string{"kill:2"}},
 			poolh.Params{Max: 2, Callers: 3, CallsEach: 1, SlowReady: true, Env: []string{"kill:1", "cancel:2"}},
+			poolh.Params{Max: 2, Callers: 3, CallsEach: 1, Env: []string{"cancel:1"}, UseErr: "ctx"},
+			poolh.Params{Max: 1, Callers: 2, CallsEach: 2, UseErr: "app:2"},
+			poolh.Params{Max: 3, Callers: 3, CallsEach: 1, Env: []string{"kill:2"}},
 		)
 	}
 	return s
@@ -50,7 +57,8 @@ func main() {
 		}
 		bound := 2
 		c.Rule("real pool.DC (instrumented pool + tdsync) over fake connections (Run until killed, Invoke yields while in use), max 1-2, 2-3 callers x 1-2 "+
-			"calls, environment {kill n-th connection, cancel caller, delayed readiness}; every schedule with <= %d preemptions/deviations; oracle: live "+
+			"calls, environment {kill n-th connection, cancel caller, delayed readiness} x how a use ends {answer; ctx.Err() when the caller gave up in flight; "+
+			"non-retryable failure of the n-th use on a healthy connection}; every schedule with <= %d preemptions/deviations; oracle: live "+
 			"connections <= max at every creation, no connection inside two Invokes at once, no connection handed to a caller (directly or by a releasing "+
 			"caller's hand-over) whose death processing (pool's 'Connection died' record) completed before that acquire / release started.", bound)
 		c.Assume("internal events (creation id, death processing done, hand-over) are observed through the pool's own debug log records")
